@@ -1210,6 +1210,8 @@ impl CommandExecutor for DrawExecutor {
                     1 => self.terminal_resolution = TerminalResolution::Medium,
                     _ => return Err(anyhow::anyhow!("SetResolution unknown/unsupported argument: {}", parameters[0])),
                 }
+                let res = self.get_resolution();
+                self.screen.resize((res.width * res.height) as usize, 1);
                 match parameters[1] {
                     0 => { // no change
                     }
